@@ -56,13 +56,16 @@ SameName(a, b, nocase) == IF nocase THEN Lower(a) = Lower(b) ELSE a = b
 (* ------------------------------------------------------------------ *)
 (* Section and option instances                                        *)
 (* ------------------------------------------------------------------ *)
+(* a section instance (cfg_t): title, options, print filter (0 = none) *)
+MkSec(title, opts) == [title |-> title, opts |-> opts, pff |-> 0]
+
 RECURSIVE InitOpts(_)
 InitOpt(d) ==
   [name  |-> d.name, type |-> d.type, flags |-> d.flags, cb |-> d.cb,
    sub   |-> d.sub, fn |-> d.fn,
    vals  |-> IF d.type = "sec"
                THEN IF "MULTI" \in d.flags THEN <<>>
-                    ELSE <<[title |-> Null, opts |-> InitOpts(d.sub)]>>
+                    ELSE <<MkSec(Null, InitOpts(d.sub))>>
                ELSE IF "NODEFAULT" \in d.flags THEN <<>> ELSE d.def,
    (* CFGF_RESET: the option still holds its pristine default *)
    reset |-> /\ d.type # "sec"
@@ -73,7 +76,7 @@ InitOpt(d) ==
    cmt   |-> Null]
 InitOpts(decls) == [i \in 1..Len(decls) |-> InitOpt(decls[i])]
 
-NewSection(decl, title) == [title |-> title, opts |-> InitOpts(decl.sub)]
+NewSection(decl, title) == MkSec(title, InitOpts(decl.sub))
 
 (* an option created on the fly in a free-form key=value section (cfg_addopt) *)
 FreeKey(name) ==
@@ -135,10 +138,19 @@ CbValue(type, text, cn) ==
     [] type = "ptr"   -> "ptr" \o ToString(cn)
     [] OTHER          -> Bad
 
+(* canonical numerals (what the printer writes) convert to themselves *)
+CanonInts == {ToString(n) : n \in 0..120} \cup {"-" \o ToString(n) : n \in 1..20} \cup {"1000", "7777"}
+F6Map == [v \in {"0","1","2","3","5","7","8","10","16","100","-4","1.5","2.25","-0.5","7777.5"} |->
+            CASE v = "1.5" -> "1.500000" [] v = "2.25" -> "2.250000" [] v = "-0.5" -> "-0.500000"
+              [] v = "7777.5" -> "7777.500000" [] OTHER -> v \o ".000000"]
+F6(v) == IF v \in DOMAIN F6Map THEN F6Map[v] ELSE v \o ".000000"
+UnF6(t) == LET S == {v \in DOMAIN F6Map : F6Map[v] = t} IN IF S = {} THEN Bad ELSE CHOOSE v \in S : TRUE
+
 Conv(type, text) ==
   CASE type = "str"   -> text
-    [] type = "int"   -> IF text \in DOMAIN ValTab THEN ValTab[text].int ELSE Bad
-    [] type = "float" -> IF text \in DOMAIN ValTab THEN ValTab[text].float ELSE Bad
+    [] type = "int"   -> IF text \in DOMAIN ValTab THEN ValTab[text].int
+                         ELSE IF text \in CanonInts THEN text ELSE Bad
+    [] type = "float" -> IF text \in DOMAIN ValTab THEN ValTab[text].float ELSE UnF6(text)
     [] type = "bool"  -> IF text \in DOMAIN ValTab THEN ValTab[text].bool ELSE Bad
     [] OTHER          -> Bad
 
